@@ -1923,7 +1923,13 @@ def check_C05(ctx):
                         elif not calls:
                             # depends on slot words (e.g. arithmetic inside the card filter): every slot is one of the 53 constants
                             ats = sorted({a for root in [o.cond] + list(o.pc) for a in atoms_of(root)})
-                            if ats and all(a.startswith("s") for a in ats) and len(ats) <= 2:
+                            cats = sorted(set(atoms_of(o.cond)))
+                            if cats and all(a.startswith("s") for a in cats) and len(cats) <= 2 and len(ats) > 2:
+                                # too many slots in the path condition: require the condition on its own (stronger)
+                                from itertools import product as _prod
+                                okk = all(cval(evaluate(pdb, o.cond, dict(zip(cats, combo)))) for combo in _prod(ctx.words53(), repeat=len(cats)))
+                                rep.evals(53 ** len(cats))
+                            elif ats and all(a.startswith("s") for a in ats) and len(ats) <= 2:
                                 from itertools import product as _prod
                                 okk = True
                                 for combo in _prod(ctx.words53(), repeat=len(ats)):
